@@ -650,7 +650,10 @@ def msm_header_bits(g, number):
 class C10(Prop):
     id = "C10"
     module = "C10"
-    theorems = ["C10_masks_partial", "C10_rejects", "C10_mask_offsets"]
+    theorems = ["C10_rejects", "C10_sat_mask_bits", "C10_mask_offsets"]
+    partial_note = ("partial: everything the MSM encoder accepts satisfies the property's preconditions; the satellite mask has exactly the listed bits; mask offsets 73/137/169 for "
+                    "all 49 layouts (table obligation). Signal/cell mask contents, row order, order independence and the decode round trip are covered by the ROUNDTRIP "
+                    "correspondence and the probe that recomputes the masks independently")
     table_obligations = ["msm_mask_offsets", "sig_tables_ok"]
     rule = ("ROUNDTRIP of MSM messages of all 49 types: admissible (S, G, C) with random permutations of the satellite and cell lists, up to 64 cells, and one generator per "
             "invalid class (satellite 0 / above 64, unrecognised signal, duplicate satellite, duplicate cell, satellite rows disagreeing with cell rows, more than 64 mask cells, "
@@ -719,6 +722,28 @@ class C10(Prop):
                 return "decoded satellites %r, expected ascending %r" % (dsats, S)
             if dkeys != keys:
                 return "decoded cells %r, expected %r" % (dkeys[:6], keys[:6])
+            # every row must carry the data the caller gave for that satellite / cell: compare the plain integer fields
+            def int_fields(rows_spec):
+                out = []
+                for j, (_, fid) in enumerate(rows_spec):
+                    fd = g.fields[fid]
+                    if fd["dt"] in INT_RANGE and fd["res"] is None and fd["bias"] is None and fd["inv"] is None and fd["ck"] == "U":
+                        out.append((j, fd["len"]))
+                return out
+            in_seg = msg[2][1][-1]
+            in_sats = {r[1][0][1]: r[1][1:] for r in in_seg[1][0][1]}
+            for r in seg[1][0][1]:
+                src = in_sats.get(r[1][0][1])
+                for j, w in int_fields(lay["sat_rows"]):
+                    if src is not None and src[j][0] == "i" and 0 <= src[j][1] < (1 << w) and r[1][1 + j] != src[j]:
+                        return "satellite %d came back with field %d = %s, the caller gave %s" % (r[1][0][1], j, vt.show(r[1][1 + j]), vt.show(src[j]))
+            in_cells = {(r[1][0][1], table.get((r[1][1][1], r[1][1][2]))): r[1][2:] for r in in_seg[1][1][1]}
+            for r in seg[1][1][1]:
+                key = (r[1][0][1], table.get((r[1][1][1], r[1][1][2])))
+                src = in_cells.get(key)
+                for j, w in int_fields(lay["sig_rows"]):
+                    if src is not None and src[j][0] == "i" and 0 <= src[j][1] < (1 << w) and r[1][2 + j] != src[j]:
+                        return "cell %r came back with field %d = %s, the caller gave %s: rows are not written in mask order" % (key, j, vt.show(r[1][2 + j]), vt.show(src[j]))
             if "E2 same" not in res:
                 return "re-encoding the decoded MSM message gives different bytes"
         return None
@@ -788,7 +813,10 @@ def bias_hostile_frames(ctx):
 class C16(Prop):
     id = "C16"
     module = "C16"
-    theorems = ["C16_decode_bounded", "C16_count_fits", "C16_keep_or_error_partial"]
+    theorems = ["C16_ssr_tables_ok", "C16_decode_bounded", "C16_decode_no_panic", "C16_counts_fit_1059", "C16_counts_fit_1065"]
+    partial_note = ("partial: decode never panics and never exceeds the list capacity; accepted lists have <= 63 satellites, <= 31 recognised entries per satellite and fit the "
+                    "capacity; SSR tables one-to-one with 5-bit ids. 'decodes to exactly the accepted multiset grouped by ascending satellite' is covered by the ROUNDTRIP "
+                    "correspondence and the probes")
     table_obligations = ["ssr_tables_ok"]
     rule = ("ROUNDTRIP of 1059/1065/1230 messages: 0..64 satellites, 0..40 entries per satellite, entries of one satellite scattered, all recognised signals, totals around 390, "
             "1230 lists in every order; DECODE of hostile frames with maximal per-satellite counts; non-trivial = distinct messages with at least two entries")
